@@ -290,7 +290,8 @@ fault("DataFrame.append_column", "ill-typed-with-declared-type", "df")(lambda c:
 
 def state_list(tier):
     states = [{"seed": "empty", "ops": []}, {"seed": "block", "ops": []}, {"seed": "mini", "ops": []}, {"seed": "rich", "ops": []},
-              {"seed": "mini+autonames", "ops": []}, {"seed": "mini+dims9", "ops": []}]
+              {"seed": "mini+autonames", "ops": []}, {"seed": "mini+dims9", "ops": []},
+              {"seed": "rich", "ops": [], "repeat": 4}, {"seed": "mini+autonames", "ops": [], "repeat": 4}]
     for h in explorer.enumerate_histories("mini", 1, THIN):
         if h[-1][0] != "reopen":
             states.append({"seed": "mini", "ops": h})
@@ -373,15 +374,23 @@ def run_case(case):
                 continue
             r.evals += 1
             env.CLOCK.advance(7)        # any timestamp written by a refused call becomes visible
-            try:
-                fa["fn"](ctx)
-                exc = None
-            except LookupError as e:
-                if str(e).strip("'\"") == "skip":
-                    continue
-                exc = e
-            except Exception as e:  # noqa
-                exc = e
+            skip = False
+            for _rep in range(case.get("repeat", 1)):
+                # (repeat > 1: the same refused call several times in a row - the N-th refusal leaves as little behind as the first)
+                try:
+                    fa["fn"](ctx)
+                    exc = None
+                except LookupError as e:
+                    if str(e).strip("'\"") == "skip":
+                        skip = True
+                        break
+                    exc = e
+                except Exception as e:  # noqa
+                    exc = e
+                if exc is None:
+                    break
+            if skip:
+                continue
             r.transitions += 1
             if exc is None:
                 r.outcomes.add("accepted:%s" % fa["site"])
